@@ -338,8 +338,8 @@ def r20_9(ctx):
         if "panic!" in names:
             continue
         k += 1
-        repl = [a for a in names if a in ("replace p1.children", "take p1.children", "assign p1.children", "set p1.children")]
-        if len(repl) != 1:
+        repl = [a for a in names if a in ("replace p1.children", "take p1.children", "assign p1.children", "set p1.children", "p1.children.replace", "p1.children.take", "p1.children.swap")]
+        if not repl:
             bad = "a path (%s) does not replace the children of the target element: stale content survives when the selected option is empty" % [g[:50] for g, v in pc["guards"].items() if v][:2]
         elif not any(x.endswith(".parent.set(None)") for x in nfq.texts(pc)):
             bad = "the removed children keep their parent link"
